@@ -167,6 +167,10 @@ Section Proofs.
   (* ---------- the leaf comparers ---------- *)
 
   Ltac crush := cbn [In]; intuition (try discriminate; try congruence; auto).
+  Ltac noattr := match goal with
+                 | H : exists n, In n [] /\ _ |- _ => destruct H as [? [[] _]]
+                 | H : exists n, False /\ _ |- _ => destruct H as [? [[] _]]
+                 end.
 
   Lemma path_test_iff : forall txt hit ev,
     In ev (path_test txt hit) <->
@@ -215,5 +219,406 @@ Section Proofs.
       destruct H as [[H1 [H2|[]]]|[H1 H2]]; auto.
     - intros [n [Hn H]]. exists n. split; auto. apply path_test_iff.
       destruct H as [[H1 H2]|[H1 H2]]; [left|right]; split; auto. left; auto.
+  Qed.
+
+  Lemma local_ev_atom : forall p a ev,
+    local_ev p (VAtom a) ev <->
+    (atom_match a = true /\ ev = EvValue p (VAtom a))
+    \/ (atom_raises a = true /\ ev = EvRaise)
+    \/ (exists n, In n (attrs_of (VAtom a)) /\ text_match (attr_text p n) = true /\ ev = EvAttr p n).
+  Proof.
+    intros p a ev. split.
+    - intro H. inversion H; subst; auto; try discriminate.
+      right. right. eauto.
+    - intros [[H1 H2]|[[H1 H2]|[n [H1 [H2 H3]]]]]; subst.
+      + apply LValue. exact H1.
+      + apply LRaise. exact H1.
+      + eapply LAttr; eauto.
+  Qed.
+
+  Lemma py_eq_none : forall b, py_eq b ANone = true <-> b = ANone.
+  Proof. intro b. destruct b; cbn; intuition discriminate. Qed.
+
+  Lemma text_raises_atom : forall a txt, it = EAtom a -> text_raises txt = false.
+  Proof.
+    intros a txt E. unfold SearchSpec.text_raises. rewrite E. apply andb_false_r.
+  Qed.
+
+  Lemma search_leaf_iff : forall a p ev, In ev (search_leaf a p) <-> local_ev p (VAtom a) ev.
+  Proof.
+    intros a p ev. rewrite local_ev_atom. unfold SearchModel.search_leaf.
+    destruct a as [|b0|z0|t0|s|s].
+    - (* None *)
+      cbn [is_strlike is_number andb]. unfold SearchModel.search_obj_atom, eq_item.
+      cbn [SearchSpec.atom_match SearchSpec.atom_raises SearchSpec.attrs_of].
+      rewrite app_nil_r.
+      assert (Hat : attrs_of (VAtom ANone) = []) by (unfold SearchSpec.attrs_of; destruct it as [[| | | | |]|]; auto).
+      rewrite Hat.
+      destruct it as [b|b].
+      + destruct (py_eq b ANone) eqn:E.
+        * apply py_eq_none in E. subst b. crush; try noattr.
+        * assert (b <> ANone) by (intro; subst; cbn in E; discriminate).
+          destruct b; crush; try noattr.
+      + crush; try noattr.
+    - cbn [is_strlike is_number andb]. rewrite search_numbers_iff.
+      assert (Hat : attrs_of (VAtom (ABool b0)) = []) by (unfold SearchSpec.attrs_of; destruct it as [[| | | | |]|]; auto).
+      rewrite Hat. cbn [SearchSpec.atom_match SearchSpec.atom_raises]. crush; try noattr.
+    - cbn [is_strlike is_number andb]. rewrite search_numbers_iff.
+      assert (Hat : attrs_of (VAtom (AInt z0)) = []) by (unfold SearchSpec.attrs_of; destruct it as [[| | | | |]|]; auto).
+      rewrite Hat. cbn [SearchSpec.atom_match SearchSpec.atom_raises]. crush; try noattr.
+    - cbn [is_strlike is_number andb]. rewrite search_numbers_iff.
+      assert (Hat : attrs_of (VAtom (AHalf t0)) = []) by (unfold SearchSpec.attrs_of; destruct it as [[| | | | |]|]; auto).
+      rewrite Hat. cbn [SearchSpec.atom_match SearchSpec.atom_raises]. crush; try noattr.
+    - (* str *)
+      cbn [is_strlike is_number andb SearchSpec.atom_match SearchSpec.atom_raises].
+      destruct it as [[|b1|z1|t1|i|i]|b] eqn:Eit;
+        cbn [item_is_str_or_re item_is_number is_number SearchSpec.attrs_of].
+      + (* item None: the str is searched as an object *)
+        unfold SearchModel.search_obj_atom, eq_item. cbn [py_eq num2 app].
+        rewrite <- Eit. rewrite attr_events_iff. rewrite Eit.
+        unfold SearchSpec.str_match, SearchSpec.str_raises. split.
+        * intros [n [Hn [[H1 H2]|[H1 H2]]]].
+          -- right. right. exists n. auto.
+          -- rewrite <- Eit in H1. rewrite (text_raises_atom ANone) in H1 by exact Eit. discriminate.
+        * intros [[H _]|[[H _]|[n [Hn [H1 H2]]]]]; try discriminate. exists n. auto.
+      + unfold SearchSpec.str_match, SearchSpec.str_raises. crush; try noattr.
+      + unfold SearchSpec.str_match, SearchSpec.str_raises. crush; try noattr.
+      + unfold SearchSpec.str_match, SearchSpec.str_raises. crush; try noattr.
+      + rewrite <- Eit. rewrite search_str_iff. rewrite Eit. crush; try noattr.
+      + rewrite <- Eit. rewrite search_str_iff. rewrite Eit. crush; try noattr.
+      + rewrite <- Eit. rewrite search_str_iff. rewrite Eit. crush; try noattr.
+    - (* bytes *)
+      cbn [is_strlike is_number andb SearchSpec.atom_match SearchSpec.atom_raises].
+      destruct it as [[|b1|z1|t1|i|i]|b] eqn:Eit;
+        cbn [item_is_str_or_re item_is_number is_number SearchSpec.attrs_of].
+      + unfold SearchModel.search_obj_atom, eq_item. cbn [py_eq num2 app].
+        rewrite <- Eit. rewrite attr_events_iff. rewrite Eit.
+        unfold SearchSpec.str_match, SearchSpec.str_raises. split.
+        * intros [n [Hn [[H1 H2]|[H1 H2]]]].
+          -- right. right. exists n. auto.
+          -- rewrite <- Eit in H1. rewrite (text_raises_atom ANone) in H1 by exact Eit. discriminate.
+        * intros [[H _]|[[H _]|[n [Hn [H1 H2]]]]]; try discriminate. exists n. auto.
+      + unfold SearchSpec.str_match, SearchSpec.str_raises. crush; try noattr.
+      + unfold SearchSpec.str_match, SearchSpec.str_raises. crush; try noattr.
+      + unfold SearchSpec.str_match, SearchSpec.str_raises. crush; try noattr.
+      + rewrite <- Eit. rewrite search_str_iff. rewrite Eit. crush; try noattr.
+      + rewrite <- Eit. rewrite search_str_iff. rewrite Eit. crush; try noattr.
+      + rewrite <- Eit. rewrite search_str_iff. rewrite Eit. crush; try noattr.
+  Qed.
+
+  (* ---------- the equality shortcut of __search_iterable ---------- *)
+
+  Lemma is_prefix_refl : forall s, is_prefix s s = true.
+  Proof. induction s as [|x s IH]; cbn; auto. rewrite N.eqb_refl. exact IH. Qed.
+  Lemma contains_sub_refl : forall s, contains_sub s s = true.
+  Proof. intro s. destruct s; cbn; auto. rewrite N.eqb_refl, is_prefix_refl. reflexivity. Qed.
+
+  Lemma py_eq_str : forall b t, py_eq b (AStr t) = true -> exists i, b = AStr i /\ pystr_eqb i t = true.
+  Proof. intros b t. destruct b; cbn; intro H; try discriminate. eauto. Qed.
+  Lemma py_eq_bytes : forall b t, py_eq b (ABytes t) = true -> exists i, b = ABytes i /\ pystr_eqb i t = true.
+  Proof. intros b t. destruct b; cbn; intro H; try discriminate. eauto. Qed.
+
+  Lemma shortcut_atom : forall x, shortcut x = true -> exists a, x = VAtom a.
+  Proof.
+    intros x H. unfold SearchModel.shortcut in H. apply andb_true_iff in H. destruct H as [_ H].
+    destruct x; cbn in H; try discriminate. eauto.
+  Qed.
+
+  Lemma shortcut_facts : forall a, shortcut (VAtom a) = true ->
+    atom_match a = true /\ atom_raises a = false /\ attrs_of (VAtom a) = [].
+  Proof.
+    intros a H. unfold SearchModel.shortcut in H. apply andb_true_iff in H. destruct H as [_ H].
+    cbn [thing_eq_item] in H. unfold eq_item in H.
+    destruct it as [b|b] eqn:Eit; [|discriminate].
+    destruct a as [|b0|z0|t0|s|s].
+    - assert (b = ANone) by (apply py_eq_none; destruct cs; exact H). subst b. cbn. auto.
+    - assert (H' : py_eq b (ABool b0) = true) by (destruct cs; exact H).
+      cbn [SearchSpec.atom_match SearchSpec.atom_raises]. unfold SearchSpec.num_match, SearchSpec.num_raises.
+      rewrite H'. cbn. repeat split; auto. destruct b; reflexivity.
+    - assert (H' : py_eq b (AInt z0) = true) by (destruct cs; exact H).
+      cbn [SearchSpec.atom_match SearchSpec.atom_raises]. unfold SearchSpec.num_match, SearchSpec.num_raises.
+      rewrite H'. cbn. repeat split; auto. destruct b; reflexivity.
+    - assert (H' : py_eq b (AHalf t0) = true) by (destruct cs; exact H).
+      cbn [SearchSpec.atom_match SearchSpec.atom_raises]. unfold SearchSpec.num_match, SearchSpec.num_raises.
+      rewrite H'. cbn. repeat split; auto. destruct b; reflexivity.
+    - assert (H' : py_eq b (AStr (fold_s s)) = true) by (unfold SearchModel.fold_s; destruct cs; exact H).
+      apply py_eq_str in H'. destruct H' as [i [Hb Hi]]. subst b.
+      cbn [SearchSpec.atom_match SearchSpec.atom_raises SearchSpec.attrs_of].
+      unfold SearchSpec.str_match, SearchSpec.str_raises. cbn [negb andb].
+      repeat split; auto.
+      destruct (match_string c); [exact Hi|]. apply pystr_eqb_eq in Hi. rewrite Hi. apply contains_sub_refl.
+    - assert (H' : py_eq b (ABytes (fold_s s)) = true) by (unfold SearchModel.fold_s; destruct cs; exact H).
+      apply py_eq_bytes in H'. destruct H' as [i [Hb Hi]]. subst b.
+      cbn [SearchSpec.atom_match SearchSpec.atom_raises SearchSpec.attrs_of].
+      unfold SearchSpec.str_match, SearchSpec.str_raises. cbn [negb andb].
+      repeat split; auto.
+      destruct (match_string c); [exact Hi|]. apply pystr_eqb_eq in Hi. rewrite Hi. apply contains_sub_refl.
+  Qed.
+
+  Lemma shortcut_local : forall a, shortcut (VAtom a) = true ->
+    forall p ev, local_ev p (VAtom a) ev <-> ev = EvValue p (VAtom a).
+  Proof.
+    intros a H p ev. destruct (shortcut_facts a H) as [H1 [H2 H3]].
+    rewrite local_ev_atom. rewrite H1, H2, H3. crush. noattr.
+  Qed.
+
+  Lemma thing_events_iff : forall srch x p' ev,
+    In ev (thing_events srch x p') <->
+    skip_this (type_of x) p' = false /\
+    ((shortcut x = true /\ ev = EvValue p' x) \/ (shortcut x = false /\ In ev (srch p'))).
+  Proof.
+    intros srch x p' ev. unfold SearchModel.thing_events.
+    destruct (skip_this (type_of x) p'); [crush|]. destruct (shortcut x); crush.
+  Qed.
+
+  (* ---------- the traversal ---------- *)
+
+  Definition spec_ev (obj : value) (pre : path) (ev : event) : Prop :=
+    item_excl = false /\
+    exists rest w, get_at obj rest = Some w /\ vis pre obj rest = true /\ local_ev (pre ++ rest) w ev.
+
+  Lemma vis_head : forall pre obj rest, vis pre obj rest = true -> path_excl pre = false.
+  Proof.
+    intros pre obj rest H. destruct rest; cbn in H; apply andb_true_iff in H; destruct H as [H _];
+      apply negb_true_iff in H; exact H.
+  Qed.
+
+  Lemma child_atom : forall a s, child (VAtom a) s = None.
+  Proof. intros a s. destruct s; reflexivity. Qed.
+
+  Lemma get_at_atom : forall a rest w, get_at (VAtom a) rest = Some w -> rest = [] /\ w = VAtom a.
+  Proof.
+    intros a rest w H. destruct rest as [|s r]; cbn [get_at] in H.
+    - inversion H. auto.
+    - rewrite child_atom in H. discriminate.
+  Qed.
+
+  Lemma search_atom_iff : forall a pre ev, In ev (search_atom a pre) <-> spec_ev (VAtom a) pre ev.
+  Proof.
+    intros a pre ev. unfold SearchModel.search_atom, SearchModel.skip_item, spec_ev. split.
+    - destruct (path_excl pre) eqn:E1; [intros []|]. destruct item_excl eqn:E2; [intros []|].
+      cbn [orb]. intro H. apply search_leaf_iff in H. split; auto.
+      exists [], (VAtom a). cbn. rewrite E1, app_nil_r. auto.
+    - intros [Hi [rest [w [Hg [Hv Hl]]]]]. apply get_at_atom in Hg. destruct Hg; subst.
+      apply vis_head in Hv. rewrite Hv, Hi. cbn [orb]. apply search_leaf_iff.
+      rewrite app_nil_r in Hl. exact Hl.
+  Qed.
+
+  Lemma seq_case : forall (obj : value) (ys : list value) (srch : value -> path -> list event)
+                          (evs : path -> list event),
+    (forall i, child obj (SIdx i) = nth_error ys i) ->
+    (forall k, child obj (SKey k) = None) ->
+    (forall p ev, ~ local_ev p obj ev) ->
+    (forall pre ev, In ev (evs pre) <->
+                    exists i x, nth_error ys i = Some x /\ In ev (thing_events (srch x) x (pre ++ [SIdx i]))) ->
+    (forall x, In x ys -> forall p' ev, In ev (srch x p') <-> spec_ev x p' ev) ->
+    forall pre ev, In ev (if skip_item pre then [] else evs pre) <-> spec_ev obj pre ev.
+  Proof.
+    intros obj ys srch evs Hidx Hkey Hloc Hevs IH pre ev. unfold SearchModel.skip_item. split.
+    - destruct (path_excl pre) eqn:E1; [intros []|]. destruct item_excl eqn:E2; [intros []|].
+      cbn [orb]. intro H. apply Hevs in H. destruct H as [i [x [Hn H]]].
+      apply thing_events_iff in H. destruct H as [Hsk H]. unfold SearchModel.skip_this in Hsk.
+      apply orb_false_iff in Hsk. destruct Hsk as [Hp' Hty].
+      split; auto. destruct H as [[Hsc Hev]|[Hsc Hin]].
+      + exists [SIdx i], x. cbn [get_at SearchSpec.vis]. rewrite Hidx, Hn.
+        cbn [step_is_idx]. rewrite E1, Hp', Hty. cbn. repeat split; auto.
+        destruct (shortcut_atom x Hsc) as [a Ha]. subst x. apply shortcut_local; auto.
+      + apply IH in Hin; [|eapply nth_error_In; eauto].
+        destruct Hin as [_ [rest [w [Hg [Hv Hl]]]]].
+        exists (SIdx i :: rest), w. cbn [get_at SearchSpec.vis]. rewrite Hidx, Hn.
+        cbn [step_is_idx]. rewrite E1, Hty, Hv. cbn. repeat split; auto.
+        rewrite <- app_assoc in Hl. exact Hl.
+    - intros [Hi [rest [w [Hg [Hv Hl]]]]]. destruct rest as [|s r].
+      + cbn in Hg. inversion Hg; subst w. exfalso. eapply Hloc; eauto.
+      + cbn [get_at SearchSpec.vis] in Hg, Hv. destruct s as [k|i].
+        { rewrite Hkey in Hg. discriminate. }
+        rewrite Hidx in Hg, Hv. destruct (nth_error ys i) as [x|] eqn:Hn; [|discriminate].
+        cbn [step_is_idx andb] in Hv.
+        apply andb_true_iff in Hv. destruct Hv as [Hv1 Hv]. apply andb_true_iff in Hv. destruct Hv as [Hv2 Hv3].
+        apply negb_true_iff in Hv1. apply negb_true_iff in Hv2.
+        rewrite Hv1, Hi. cbn [orb]. apply Hevs. exists i, x. split; auto.
+        apply thing_events_iff. split.
+        { unfold SearchModel.skip_this. rewrite (vis_head _ _ _ Hv3), Hv2. reflexivity. }
+        destruct (shortcut x) eqn:Hsc.
+        * left. split; auto. destruct (shortcut_atom x Hsc) as [a Ha]. subst x.
+          apply get_at_atom in Hg. destruct Hg; subst. apply (shortcut_local a Hsc) in Hl. exact Hl.
+        * right. split; auto. apply IH; [eapply nth_error_In; eauto|]. split; auto.
+          exists r, w. repeat split; auto. rewrite <- app_assoc. exact Hl.
+  Qed.
+
+  Definition iter_list (pre : path) :=
+    fix go (xs : list value) (i : nat) : list event :=
+      match xs with
+      | [] => []
+      | x :: r => (thing_events (search x) x (pre ++ [SIdx i]) ++ go r (S i))%list
+      end.
+  Definition iter_atoms (pre : path) :=
+    fix go (xs : list atom) (i : nat) : list event :=
+      match xs with
+      | [] => []
+      | a :: r => (thing_events (search_atom a) (VAtom a) (pre ++ [SIdx i]) ++ go r (S i))%list
+      end.
+  Definition iter_dict (pre : path) :=
+    fix go (kvs : list (atom * value)) : list event :=
+      match kvs with
+      | [] => []
+      | kv :: r => let p' := (pre ++ [SKey (fst kv)])%list in
+                   (path_event p' (snd kv) ++ search (snd kv) p' ++ go r)%list
+      end.
+
+  Lemma search_list_eq : forall xs pre,
+    search (VList xs) pre = if skip_item pre then [] else iter_list pre xs 0.
+  Proof. reflexivity. Qed.
+  Lemma search_tuple_eq : forall xs pre,
+    search (VTuple xs) pre = if skip_item pre then [] else iter_list pre xs 0.
+  Proof. reflexivity. Qed.
+  Lemma search_set_eq : forall xs pre,
+    search (VSet xs) pre = if skip_item pre then [] else iter_atoms pre xs 0.
+  Proof. reflexivity. Qed.
+  Lemma search_frozen_eq : forall xs pre,
+    search (VFrozen xs) pre = if skip_item pre then [] else iter_atoms pre xs 0.
+  Proof. reflexivity. Qed.
+  Lemma search_dict_eq : forall kvs pre,
+    search (VDict kvs) pre = if skip_item pre then [] else iter_dict pre kvs.
+  Proof. reflexivity. Qed.
+  Lemma search_atom_eq : forall a pre, search (VAtom a) pre = search_atom a pre.
+  Proof. reflexivity. Qed.
+
+  Lemma iter_list_in : forall pre xs n ev,
+    In ev (iter_list pre xs n) <->
+    exists i x, nth_error xs i = Some x /\ In ev (thing_events (search x) x (pre ++ [SIdx (n + i)])).
+  Proof.
+    intros pre xs. induction xs as [|x r IH]; intros n ev.
+    - cbn. split; [intros []|]. intros [i [y [H _]]]. destruct i; discriminate.
+    - cbn [iter_list]. rewrite in_app_iff. fold (iter_list pre). rewrite IH. split.
+      + intros [H|[i [y [Hn H]]]].
+        * exists 0, x. rewrite Nat.add_0_r. auto.
+        * exists (S i), y. rewrite Nat.add_succ_r. auto.
+      + intros [i [y [Hn H]]]. destruct i as [|i].
+        * cbn in Hn. inversion Hn; subst y. rewrite Nat.add_0_r in H. auto.
+        * right. exists i, y. rewrite Nat.add_succ_r in H. auto.
+  Qed.
+
+  Lemma iter_atoms_in : forall pre xs n ev,
+    In ev (iter_atoms pre xs n) <->
+    exists i x, nth_error (map VAtom xs) i = Some x
+                /\ In ev (thing_events (search x) x (pre ++ [SIdx (n + i)])).
+  Proof.
+    intros pre xs. induction xs as [|a r IH]; intros n ev.
+    - cbn. split; [intros []|]. intros [i [y [H _]]]. destruct i; discriminate.
+    - cbn [iter_atoms map]. rewrite in_app_iff. fold (iter_atoms pre). rewrite IH. split.
+      + intros [H|[i [y [Hn H]]]].
+        * exists 0, (VAtom a). rewrite Nat.add_0_r. auto.
+        * exists (S i), y. rewrite Nat.add_succ_r. auto.
+      + intros [i [y [Hn H]]]. destruct i as [|i].
+        * cbn in Hn. inversion Hn; subst y. rewrite Nat.add_0_r in H. auto.
+        * right. exists i, y. rewrite Nat.add_succ_r in H. auto.
+  Qed.
+
+  Lemma iter_dict_in : forall pre kvs ev,
+    In ev (iter_dict pre kvs) <->
+    exists kv, In kv kvs /\ (In ev (path_event (pre ++ [SKey (fst kv)]) (snd kv))
+                             \/ In ev (search (snd kv) (pre ++ [SKey (fst kv)]))).
+  Proof.
+    intros pre kvs ev. induction kvs as [|kv r IH].
+    - cbn. split; [intros []|]. intros [kv [[] _]].
+    - cbn [iter_dict]. fold (iter_dict pre). rewrite !in_app_iff, IH. split.
+      + intros [H|[H|[kv' [Hin H]]]].
+        * exists kv. split; [left|]; auto.
+        * exists kv. split; [left|]; auto.
+        * exists kv'. split; [right|]; auto.
+      + intros [kv' [[Heq|Hin] H]].
+        * subst kv'. destruct H; auto.
+        * right. right. exists kv'. auto.
+  Qed.
+
+  Lemma attrs_of_nonatom : forall w n, In n (attrs_of w) -> exists a, w = VAtom a.
+  Proof.
+    intros w n H. unfold SearchSpec.attrs_of in H.
+    destruct it as [[| | | | |]|]; try destruct H.
+    destruct w as [a| | | | |]; try destruct H. eauto.
+  Qed.
+
+  Lemma local_ev_shape : forall p w ev, local_ev p w ev ->
+    (exists a, w = VAtom a) \/ (exists kvs, w = VDict kvs).
+  Proof.
+    intros p w ev H. inversion H; subst; eauto.
+    - destruct w; try discriminate; eauto.
+    - destruct w; try discriminate; eauto.
+    - left. eapply attrs_of_nonatom; eauto.
+  Qed.
+
+  Theorem search_iff : forall obj, wf obj = true ->
+    forall pre ev, In ev (search obj pre) <-> spec_ev obj pre ev.
+  Proof.
+    induction obj as [a|xs IH|xs IH|kvs IH|xs|xs] using value_ind'; intros Hwf pre ev.
+    - rewrite search_atom_eq. apply search_atom_iff.
+    - rewrite search_list_eq.
+      apply (seq_case (VList xs) xs (fun x => search x) (fun pre => iter_list pre xs 0)).
+      + reflexivity.
+      + reflexivity.
+      + intros p e H. apply local_ev_shape in H. destruct H as [[a H]|[k H]]; discriminate.
+      + intros pre' e. apply (iter_list_in pre' xs 0 e).
+      + intros x Hin. rewrite Forall_forall in IH. apply IH; auto. eapply wf_list_inv; eauto.
+    - rewrite search_tuple_eq.
+      apply (seq_case (VTuple xs) xs (fun x => search x) (fun pre => iter_list pre xs 0)).
+      + reflexivity.
+      + reflexivity.
+      + intros p e H. apply local_ev_shape in H. destruct H as [[a H]|[k H]]; discriminate.
+      + intros pre' e. apply (iter_list_in pre' xs 0 e).
+      + intros x Hin. rewrite Forall_forall in IH. apply IH; auto. eapply wf_list_inv; eauto.
+    - (* dict *)
+      rewrite search_dict_eq. destruct (wf_dict_inv kvs Hwf) as [Hnd Hwfc].
+      rewrite Forall_forall in IH. unfold SearchModel.skip_item. split.
+      + destruct (path_excl pre) eqn:E1; [intros []|]. destruct item_excl eqn:E2; [intros []|].
+        cbn [orb]. intro H. apply iter_dict_in in H. destruct H as [[k ch] [Hin H]]. cbn [fst snd] in H.
+        split; auto. destruct H as [H|H].
+        * unfold SearchModel.path_event in H. apply path_test_iff in H.
+          exists [], (VDict kvs). cbn [get_at SearchSpec.vis]. rewrite E1, app_nil_r. cbn.
+          repeat split; auto. destruct H as [[H1 [H2|[]]]|[H1 H2]]; subst ev.
+          -- eapply LPath; eauto.
+          -- eapply LPathRaise; eauto.
+        * apply (IH (k, ch) Hin (Hwfc _ Hin)) in H. destruct H as [_ [rest [w [Hg [Hv Hl]]]]].
+          cbn [snd] in Hg, Hv.
+          exists (SKey k :: rest), w. cbn [get_at SearchSpec.vis child].
+          rewrite (find_key_in kvs k ch Hnd Hin). cbn [option_map snd step_is_idx andb negb].
+          rewrite E1, Hv. cbn. repeat split; auto. rewrite <- app_assoc in Hl. exact Hl.
+      + intros [Hi [rest [w [Hg [Hv Hl]]]]]. destruct rest as [|s r].
+        * cbn in Hg. inversion Hg; subst w. cbn [SearchSpec.vis] in Hv.
+          apply andb_true_iff in Hv. destruct Hv as [Hv _]. apply negb_true_iff in Hv.
+          rewrite Hv, Hi. cbn [orb]. rewrite app_nil_r in Hl. apply iter_dict_in.
+          inversion Hl as [Hm|Hr|n Hn Ht|kvs' k ch Hw Hink Hpm|kvs' k ch Hw Hink Htr].
+          -- cbn in Hm. discriminate.
+          -- cbn in Hr. discriminate.
+          -- apply attrs_of_nonatom in Hn. destruct Hn; discriminate.
+          -- inversion Hw; subst kvs'. exists (k, ch). split; auto. left. cbn [fst snd].
+             unfold SearchModel.path_event. apply path_test_iff. left. split; [exact Hpm|left; auto].
+          -- inversion Hw; subst kvs'. exists (k, ch). split; auto. left. cbn [fst snd].
+             unfold SearchModel.path_event. apply path_test_iff. right. split; auto.
+        * cbn [get_at SearchSpec.vis] in Hg, Hv. destruct s as [k|i]; [|discriminate].
+          cbn [child] in Hg, Hv.
+          destruct (find (fun kv => atom_eqb (fst kv) k) kvs) as [kv|] eqn:Hf; [|discriminate].
+          apply find_key_some in Hf. destruct Hf as [Hin Hk]. cbn [option_map] in Hg, Hv.
+          cbn [step_is_idx andb negb] in Hv. apply andb_true_iff in Hv. destruct Hv as [Hv1 Hv2].
+          apply negb_true_iff in Hv1. rewrite Hv1, Hi. cbn [orb].
+          apply iter_dict_in. exists kv. split; auto. right. rewrite Hk.
+          apply (IH kv Hin (Hwfc _ Hin)). split; auto. exists r, w. repeat split; auto.
+          rewrite <- app_assoc. exact Hl.
+    - rewrite search_set_eq.
+      apply (seq_case (VSet xs) (map VAtom xs) (fun x => search x) (fun pre => iter_atoms pre xs 0)).
+      + intro i. cbn [child]. symmetry. apply nth_error_map_atom.
+      + reflexivity.
+      + intros p e H. apply local_ev_shape in H. destruct H as [[a H]|[k H]]; discriminate.
+      + intros pre' e. apply (iter_atoms_in pre' xs 0 e).
+      + intros x Hin. apply in_map_iff in Hin. destruct Hin as [a [Ha _]]. subst x.
+        intros p' e. rewrite search_atom_eq. apply search_atom_iff.
+    - rewrite search_frozen_eq.
+      apply (seq_case (VFrozen xs) (map VAtom xs) (fun x => search x) (fun pre => iter_atoms pre xs 0)).
+      + intro i. cbn [child]. symmetry. apply nth_error_map_atom.
+      + reflexivity.
+      + intros p e H. apply local_ev_shape in H. destruct H as [[a H]|[k H]]; discriminate.
+      + intros pre' e. apply (iter_atoms_in pre' xs 0 e).
+      + intros x Hin. apply in_map_iff in Hin. destruct Hin as [a [Ha _]]. subst x.
+        intros p' e. rewrite search_atom_eq. apply search_atom_iff.
   Qed.
 End Proofs.
